@@ -513,6 +513,8 @@ def run(ctx):
     batch.flush()
     if not ctx.quick:
         exhaustive(ctx, batch)
+    from harness.gen import c05_ped as G
+    G.assert_overlay_in_use(ctx.overlay)
     modes = ["single:interleaved"] * 2 + ["single:nested"] * 2 + ["single:chain-gaps", "single:random", "single:random"] + \
             ["deep:clusters"] * 3 + ["deep:random"] * 2 + ["ped"] * 5 + ["ped-nogenetic"] * 4
     if not ctx.quick:
@@ -521,6 +523,7 @@ def run(ctx):
     for m in modes:
         run_cli(ctx, batch, gen_cli_case(rng, m))
     batch.flush()
+    G.assert_overlay_in_use(ctx.overlay)
     shutil.rmtree(ctx.workdir(), ignore_errors=True)
 
 
